@@ -1,12 +1,159 @@
 import Driver.Util
-open Drv
+import Faithful.Lib.Rpc
+import Faithful.Lib.Hash
+open Drv Rpc FS FSys FindEpoch
 
+/-!
+Model side of the C02 line protocol (see /verif/harness/tree/c02_test.go for the op kinds).
+
+The archive lines (`epoch`, `obj`, `block`, `entry`, `tx`) build `Rpc.Epoch` values; `load` selects the loaded subset,
+the search concurrency and resets the offset cache; `gettx` / `getblock` / `getblocktime` run the very definitions the
+theorems of `Faithful/Properties/C02.lean` are about — `Rpc.getTransactionS` / `Rpc.getBlockS` with the repaired cache
+key `Rpc.pairKey`, the offset cache threaded from request to request, an empty raw-object cache, the LIFO completion
+order of the fetch goroutines, insertion sort as `sort.Slice`, and the epoch search run by `FSys.prioRun` under the
+loaded concurrency limit — and print the canonical record of the answer for the requested API / encoding.
+-/
 namespace DrvC02
+
+structure EntryAcc where
+  hash : Rpc.Bytes
+  cid : Cid
+  txs : Array Tx := #[]
+
+structure BlockAcc where
+  slot : Nat
+  parent : Nat
+  time : Nat
+  height : Option Nat
+  cid : Cid
+  entries : Array EntryAcc := #[]
+
+structure EpochAcc where
+  num : Nat
+  genesis : Option Nat
+  objs : Array (Cid × Nat) := #[]
+  blocks : Array BlockAcc := #[]
+
+def EpochAcc.toEpoch (e : EpochAcc) : Epoch :=
+  { num := e.num, genesisTime := e.genesis, objs := e.objs.toList,
+    blocks := e.blocks.toList.map fun b =>
+      { slot := b.slot, parent := b.parent, time := b.time, height := b.height, cid := b.cid,
+        entries := b.entries.toList.map fun en => { hash := en.hash, cid := en.cid, txs := en.txs.toList } } }
+
+structure St where
+  univ : Array EpochAcc := #[]
+  es : List Epoch := []
+  conc : Int := 0
+  cache : Cache := []
+
+def natOfHex (s : String) : Nat := s.foldl (fun acc c => acc * 16 + hexVal c) 0
+
+def digest (b : Rpc.Bytes) : String := s!"{hexNat (H.xxhash64 b).toNat 16}:{b.length}"
+
+def optNat (s : String) : Option Nat := if s = "-" then none else some s.toNat!
+
+def modifyLast {α : Type} (a : Array α) (f : α → α) : Array α :=
+  if a.size = 0 then a else a.modify (a.size - 1) f
+
+def modifyEpoch (st : St) (num : Nat) (f : EpochAcc → EpochAcc) : St :=
+  { st with univ := st.univ.map fun e => if e.num = num then f e else e }
+
+/-- the four renderings of a transaction kept in `Tx.tag`: binary payload digest, metadata bytes digest, digest of the
+`json` rendering, digest of the JSON metadata fields (the last two are opaque inputs: third-party renderers) -/
+def tagOf (payload mdata : Rpc.Bytes) (txJson metaJson : String) : String :=
+  s!"{digest payload} {digest mdata} {txJson} {metaJson}"
+
+def tagField (t : Tx) (i : Nat) : String := (t.tag.splitOn " ").getD i "?"
+
+/-- (transaction, metadata) as the API prints them -/
+def renderTx (api : String) (t : Tx) : String × String :=
+  if api = "grpc" then (tagField t 0, tagField t 1)
+  else if api = "json-json" then (tagField t 2, tagField t 3)
+  else (tagField t 0, tagField t 3)
+
+def showErr {α : Type} : Resp α → String
+  | .ok _ => "ok"
+  | .null => "null"
+  | .epochUnavailable _ => "err:epoch"
+  | .internal => "err:internal"
+  | .panic => "panic"
+
+def nullOr (n : Nat) : String := if n = 0 then "null" else toString n
+
+def showBlock (api : String) (r : BlockResp) : String :=
+  let grpc := api = "grpc"
+  let txs := r.txs.map fun t =>
+    let (a, m) := renderTx api t
+    let pos := if grpc then (match t.pos with | some p => toString p | none => "-") else "-"
+    s!"{pos}:{a}:{m}"
+  let prev := match r.previousBlockhash with
+    | some h => if h.isEmpty then "null" else hex h
+    | none => "null"
+  let height := if grpc then toString (r.blockHeight.getD 0) else (match r.blockHeight with | some h => toString h | none => "null")
+  let slot := if grpc then toString r.slot else "-"
+  let txl := ";".intercalate txs
+  s!"ok slot={slot} parent={r.parentSlot} time={nullOr r.blockTime} height={height} hash={hex r.blockhash} prev={prev} txs=[{txl}]"
+
+def showTx (api : String) (r : TxResp) : String :=
+  let (a, m) := renderTx api r.tx
+  let pos := if api = "grpc" then (match r.pos with | some p => toString p | none => "-") else "-"
+  s!"ok slot={r.slot} time={r.blockTime} pos={pos} tx={a} meta={m}"
+
+def step (st : St) (w : List String) : St × String :=
+  match w with
+  | "case" :: _ => ({ st with univ := #[], es := [], cache := [] }, "ok")
+  | ["epoch", num, g] =>
+    let gen := if g = "genesis=-" then none else some (g.drop 8).toNat!
+    ({ st with univ := st.univ.push { num := num.toNat!, genesis := gen } }, "ok")
+  | ["obj", ep, c, off] =>
+    (modifyEpoch st ep.toNat! fun e => { e with objs := e.objs.push (natOfHex c, off.toNat!) }, "ok")
+  | ["block", ep, slot, parent, time, height, c] =>
+    let b : BlockAcc := { slot := slot.toNat!, parent := parent.toNat!, time := time.toNat!, height := optNat height, cid := natOfHex c }
+    (modifyEpoch st ep.toNat! fun e => { e with blocks := e.blocks.push b }, "ok")
+  | ["entry", ep, _slot, h, c] =>
+    let en : EntryAcc := { hash := unhex h, cid := natOfHex c }
+    let addE : BlockAcc → BlockAcc := fun b => { b with entries := b.entries.push en }
+    (modifyEpoch st ep.toNat! fun e => { e with blocks := modifyLast e.blocks addE }, "ok")
+  | ["tx", ep, slot, pos, sig, payload, md, c, frames, dj, mj] =>
+    let p := unhex payload
+    let m := unhex md
+    let t : Tx := { sig := natOfHex sig, slot := slot.toNat!, pos := optNat pos, payload := p, mdata := m, cid := natOfHex c,
+                    frames := if frames = "-" then [] else (frames.splitOn ",").map natOfHex, tag := tagOf p m dj mj }
+    let addT : EntryAcc → EntryAcc := fun en => { en with txs := en.txs.push t }
+    let addB : BlockAcc → BlockAcc := fun b => { b with entries := modifyLast b.entries addT }
+    (modifyEpoch st ep.toNat! fun e => { e with blocks := modifyLast e.blocks addB }, "ok")
+  | ["load", nums, conc, _order] =>
+    let ns := (nums.splitOn ",").map String.toNat!
+    let es := (st.univ.toList.filter fun e => ns.contains e.num).map EpochAcc.toEpoch
+    let c := (conc.drop 5)
+    let ci : Int := if c.startsWith "-" then - ((c.drop 1).toNat! : Int) else (c.toNat! : Int)
+    ({ st with es := es, conc := ci, cache := [] }, s!"ok {es.length}")
+  | ["getblocktime", api, slot] =>
+    match getBlockTime st.es slot.toNat! with
+    | .ok t => (st, if api = "grpc" then s!"ok {t}" else (if t = 0 then "null" else s!"ok {t}"))
+    | r => (st, showErr r)
+  | ["gettx", api, sig] =>
+    let sg := natOfHex sig
+    let r := searchRun st.conc (searchEps st.es sg) []
+    let (res, cache) := getTransactionS pairKey (fun _ => false) st.cache st.es r sg
+    ({ st with cache := cache }, match res with
+      | .ok x => showTx api x
+      | e => showErr e)
+  | ["getblock", api, slot] =>
+    let (res, cache) := getBlockS pairKey (fun _ => false) SortFn.ins Sched.lifo st.cache st.es slot.toNat!
+    ({ st with cache := cache }, match res with
+      | .ok x => showBlock api x
+      | e => showErr e)
+  | _ => (st, "unknown-op")
 
 /-- model side of the C02 line protocol: one answer line per op line -/
 def run (lines : Array String) : IO Unit := do
   let out ← IO.getStdout
-  for _ in lines do
-    out.putStrLn "unimplemented"
+  let mut st : St := {}
+  for l in lines do
+    let (st', ans) := step st (words l)
+    st := st'
+    out.putStrLn ans
+  out.flush
 
 end DrvC02
